@@ -30,6 +30,8 @@ func runC17(c *Ctx) {
 	// every Via entry of every header line teaches a route (rule "learning", shared with C06); it ends with the
 	// layout walk of this property (c17Layout)
 	c06Learning(c)
+	ruleTokenSplitting(c, "layout", "parseViaParam", "ParseCSeq", "parseRequestLine", "parseStatusLine")
+	rulePurePrinters(c, "layout")
 	_ = w
 }
 
